@@ -10,10 +10,10 @@ EXTENDS ShardEdge, Json, IOUtils, TLC, Sequences
 
 Rec == ndJsonDeserialize(IOEnv.TRACE)
 
-VARIABLES l, skip, st
-tvars == <<l, skip, st>>
+VARIABLES l, skip, st, nseq          \* nseq: the seq the next event of the episode must carry
+tvars == <<l, skip, st, nseq>>
 
-TraceInit == l = 1 /\ skip = TRUE /\ st = NewState("none", 0)
+TraceInit == l = 1 /\ skip = TRUE /\ st = NewState("none", 0) /\ nseq = 0
 
 Step ==
     /\ l <= Len(Rec)
@@ -21,21 +21,21 @@ Step ==
     /\ LET ev == Rec[l] IN
        IF ev.op = "BEGIN"
        THEN IF <<ev.logic, ev.sigw>> \in Impls
-            THEN st' = NewState(ev.logic, ev.sigw) /\ skip' = FALSE
+            THEN st' = NewState(ev.logic, ev.sigw) /\ skip' = FALSE /\ nseq' = ev.seq + 1
             ELSE /\ PrintT(<<"MISMATCH", ev.ep, ev.seq, ev.op, "unknown-logic">>)
-                 /\ skip' = TRUE /\ UNCHANGED st
-       ELSE IF skip THEN UNCHANGED <<skip, st>>
-       ELSE LET x == Eff(ev, st)
+                 /\ skip' = TRUE /\ UNCHANGED <<st, nseq>>
+       ELSE IF skip THEN UNCHANGED <<skip, st, nseq>>
+       ELSE LET x == IF ev.seq # nseq THEN [why |-> "event-lost", st |-> st] ELSE Eff(ev, st)
             IN  IF x.why = "ok"
-                THEN st' = x.st /\ skip' = FALSE
+                THEN st' = x.st /\ skip' = FALSE /\ nseq' = nseq + 1
                 ELSE /\ PrintT(<<"MISMATCH", ev.ep, ev.seq, ev.op, x.why>>)
                      /\ skip' = TRUE
-                     /\ UNCHANGED st
+                     /\ UNCHANGED <<st, nseq>>
 
 Finish == /\ l = Len(Rec) + 1
           /\ PrintT(<<"TRACE-END", Len(Rec)>>)
           /\ l' = l + 1
-          /\ UNCHANGED <<skip, st>>
+          /\ UNCHANGED <<skip, st, nseq>>
 
 TraceNext == Step \/ Finish
 TraceSpec == TraceInit /\ [][TraceNext]_tvars
